@@ -115,9 +115,11 @@ struct Conn {
 };
 struct Event { uint64_t at, seq; int conn; bool operator>(const Event& o) const { return at != o.at ? at > o.at : seq > o.seq; } };
 
+struct WindowSample { std::vector<uint8_t> bytes; int status; size_t read, required; bool has_ev; RecEv ev; };
 struct Exec {
   int buf_policy = 0; bool replay = false, empty_call = false;
   Recorder rec;
+  std::vector<WindowSample> samples;     // windows decoded earlier, decoded again after everything else has happened (no state between calls)
 
   // one decoder call with the C08 oracle. Returns false when the client must stop.
   bool call(Conn& c, int ci) {
@@ -133,6 +135,7 @@ struct Exec {
     struct cbor_decoder_result res = cbor_stream_decode(win, avail, recorder_callbacks(), &rec);
     uint64_t req_after = sa_total_requests();
     g_log.ev("decode", ci, (uint64_t)res.status, res.read);
+    if (samples.size() < 96 && avail <= 4096 && (c.calls % 3 == 0 || samples.size() < 8)) { WindowSample ws; ws.bytes.assign(win, win + avail); ws.status = (int)res.status; ws.read = res.read; ws.required = res.required; ws.has_ev = rec.evs.size() == 1; if (ws.has_ev) ws.ev = rec.evs[0]; samples.push_back(std::move(ws)); }
     if (req_after != req_before) fail("C08,C13", "stream-decode-allocates", fmt("cbor_stream_decode made %llu allocator request(s)", (unsigned long long)(req_after - req_before)));
     Tok t = ref_tok(win, avail);
     bool cont = true;
@@ -257,6 +260,16 @@ void exec_stream(const J& plan) {
     if (++steps > 1000000) { fail("C09", "simulation-step-budget", "step budget exceeded"); break; }
   }
   g_run.sim_time = now;
+  // no state between calls: the same windows, decoded again now that other connections' traffic has gone through the decoder
+  for (size_t i = X.samples.size(); i-- > 0 && !failed();) {
+    WindowSample& ws = X.samples[i];
+    uint8_t* w2 = (uint8_t*)malloc(ws.bytes.size()); if (!ws.bytes.empty()) memcpy(w2, ws.bytes.data(), ws.bytes.size());
+    Recorder r2; r2.begin(w2, ws.bytes.size());
+    struct cbor_decoder_result res2 = cbor_stream_decode(w2, ws.bytes.size(), recorder_callbacks(), &r2);
+    std::string why; bool same = (int)res2.status == ws.status && res2.read == ws.read && (ws.status != CBOR_DECODER_NEDATA || res2.required == ws.required) && (r2.evs.size() == 1) == ws.has_ev && (!ws.has_ev || event_matches(r2.evs[0], ws.ev, why));
+    if (!same) fail("C08,C09", "decoder-keeps-state-between-calls", fmt("a %zu-byte window [%s] decoded earlier in the run gives a different result when decoded again at the end (status %d/%d, read %zu/%zu) %s", ws.bytes.size(), to_hex(ws.bytes.data(), std::min<size_t>(ws.bytes.size(), 16)).c_str(), ws.status, (int)res2.status, ws.read, res2.read, why.c_str()));
+    free(w2); stat_add("windows_decoded_again");
+  }
   // history oracle (C09): what a client must have received for the delivered prefix
   uint64_t total_frag = 0, total_ned = 0; bool multi = false;
   for (size_t i = 0; i < conns.size() && !failed(); i++) {
